@@ -380,12 +380,24 @@ theorem wstep_sim (gate : Status → Method → Bool) (hG : gateEq gate refWspGa
 theorem wstepInput_sim (gate : Status → Method → Bool) (hG : gateEq gate refWspGate = true) (s : WSess) (i : Input)
     (hinv : WInv s) :
     WInv (wstepInput gate s i).1 ∧
-    mstep .wsp (wmstateOf s)
-      (obsOf i (wstepInput gate s i).2 (wstepInput gate s i).1.consumers false (wstepInput gate s i).1.closed)
+    mcore .wsp (wmstateOf s)
+        (obsOf i (wstepInput gate s i).2 (wstepInput gate s i).1.consumers false (wstepInput gate s i).1.closed)
       = .ok (wmstateOf (wstepInput gate s i).1) := by
   cases i with
-  | req r e => exact wstep_sim gate hG s r e hinv
+  | req r e =>
+    have := wstep_sim gate hG s r e hinv
+    simp only [wstepInput, mcore, obsOf, Bool.false_eq_true, ↓reduceIte]
+    exact this
+  | frame ch hdrOk =>
+    refine ⟨hinv, ?_⟩
+    simp only [wstepInput, mcore, obsOf, respsOf, List.filterMap_nil, List.length_nil, ↓reduceIte, mframe]
+    by_cases hc : s.closed = true
+    · simp [wmstateOf, wabsPhase, hc]
+    · have hc' : s.closed = false := by simpa using hc
+      have := wabsPhase_open s hc'
+      simp [wmstateOf, this, hc']
   | hangup =>
+    simp only [mcore, obsOf, Bool.false_eq_true, ↓reduceIte]
     by_cases hc : s.closed = true
     · have hs : wstepInput gate s .hangup = (s, []) := by simp [wstepInput, wdisconnect, hc]
       rw [hs]
@@ -476,6 +488,10 @@ theorem wmedia_ok (gate : Status → Method → Bool) (hG : gateEq gate refWspGa
         split at ha'
         · rw [ha] at ha'; cases ha'
         · simp [wFinish] at ha'
+      | frame ch hdrOk =>
+        exfalso
+        simp only [wstepInput] at ha'
+        rw [ha] at ha'; cases ha'
       | req r e =>
         obtain ⟨hm, x, hx, h200⟩ := wstep_attach gate s r e ha ha'
         simp only [wstepInput] at hx ⊢
@@ -500,7 +516,7 @@ theorem wtrace_mrun (gate : Status → Method → Bool) (hG : gateEq gate refWsp
           media := s.attached || (wstepInput gate s i).1.attached } := by
       rw [← obsOf_sid i (wstepInput gate s i).2 (wstepInput gate s i).1.consumers false (wstepInput gate s i).1.closed]
     simp only [mguard, hmedia, Bool.not_true, Bool.false_eq_true, ↓reduceIte]
-    rw [hsid, mstep_media, hm]
+    rw [hsid, mcore_media, hm]
     exact ih _ hi
 
 end IpcHub.Rtsp
